@@ -165,6 +165,12 @@ func (r *standardRenderer) kill() {
 	r.execute(ansi.EraseEntireLine)
 	// Move the cursor back to the beginning of the line
 	r.execute("\r")
+
+	// As in stop: the erased line is no longer on screen. If the program has
+	// in fact quit and Run's own shutdown still paints the final view (a Kill
+	// that lost the race to a quit), that render must not skip the line as
+	// unchanged.
+	r.repaint()
 }
 
 // listen waits for ticks on the ticker, or a signal to stop the renderer.
